@@ -7,7 +7,8 @@
                                    srv.confLock.Lock()                               RLock
                                    srv.ServerConf = newServerConf                    RSwap
                                    srv.confLock.Unlock()                             RUnlock
-                                   setTransports(srv.ServerConf.ClusterTable...)     RSetTransports   (re-reads the SHARED pointer, without the lock)
+                                   setTransports(newServerConf.ClusterTable...)      RSetTransports   (its OWN new conf; before the fix 75a3f5a it
+                                                                                                       re-read srv.ServerConf without the lock: a data race)
                                    balTable.SetGslbBasic(newServerConf.ClusterTable) RSetGslbBasic    (uses its OWN new conf)
                                    balTable.SetSlowStart(newServerConf.ClusterTable) RSetSlowStart
    gslbDataConfReload              BalTableConfLoad                                  GLoad
@@ -89,7 +90,7 @@ Definition step_reload (s : shared) (r : reload) : shared * reload :=
   | 1%nat => (* confLock.Lock *) if conf_w s then (s, r) else (set_conf_w s true, next)
   | 2%nat => (* srv.ServerConf = newServerConf *) (set_conf s (rl_ver r), next)
   | 3%nat => (* confLock.Unlock *) (set_conf_w s false, next)
-  | 4%nat => (* setTransports(srv.ServerConf...) : reads the shared pointer again *) (set_transports s (conf s), next)
+  | 4%nat => (* setTransports(newServerConf.ClusterTable.ClusterMap()) *) (set_transports s (rl_ver r), next)
   | 5%nat => (* SetGslbBasic(newServerConf.ClusterTable) *) if bal_w s then (s, r) else (set_gslb_basic s (rl_ver r), next)
   | 6%nat => (* SetSlowStart(newServerConf.ClusterTable) : RLock *) if bal_w s then (s, r) else (set_slow_start s (rl_ver r), next)
   | _ => (s, r)
